@@ -9,13 +9,7 @@ _Bool nondet_bool(void);
 unsigned nondet_uint(void);
 constant *nondet_cptr(void);
 
-/* models of the virtual calls made by the extracted text */
-_Bool cdom_safe_arith(const zw_cdom *d) { return SAFE(d); }
-const zw_cdom *cdom_most_enclosing(const zw_cdom *d, const mpz_class *v)
-{
-  const zw_cdom *r = ENCL(d, *v);
-  return r;
-}
+#include "cst_models.h"
 
 static constant mkc(uint64_t u, _Bool s, unsigned di)
 {
